@@ -404,6 +404,37 @@ def point_leq_history(rng, hid, params=None):
     return h
 
 
+def disjunct_leq_history(rng, hid, params=None):
+    """directed family (C04) for disjunctive domains: register 2 = join of two or three separated points / small regions of one or two
+    variables, register 1 = a point BETWEEN them (inside the hull, outside every disjunct) or inside one of them; inclusion tests both
+    ways, then a further join and test.  A domain that keeps the disjuncts must not answer yes for the point in the gap
+    (its exported disjunction does not contain it); a convex domain legitimately does."""
+    ints = [1, 2, 3, 4]
+    a, b = rng.sample(ints, 2)
+    two = rng.random() < 0.5
+    cs = sorted(rng.sample(range(-4, 5), rng.choice([2, 2, 3])))
+    steps = []
+
+    def point(r, va, vb):
+        steps.append({"op": "stmt", "r": r, "s": {"op": "assign", "x": a, "e": {"k": va, "t": []}}})
+        if two:
+            steps.append({"op": "stmt", "r": r, "s": {"op": "assign", "x": b, "e": {"k": vb, "t": []}}})
+    yb = rng.randint(-2, 2)
+    point(2, cs[0], yb)
+    for c in cs[1:]:
+        point(3, c, yb + rng.choice([0, 0, 1]))
+        steps.append({"op": "join", "r": 2, "a": 2, "b": 3})
+    gaps = [v for v in range(cs[0], cs[-1] + 1) if v not in cs]
+    inside = rng.random() < 0.3 or not gaps
+    point(1, rng.choice(cs) if inside else rng.choice(gaps), yb)
+    steps += [{"op": "leq", "r": 0, "a": 1, "b": 2}, {"op": "leq", "r": 0, "a": 2, "b": 1}]
+    steps += [{"op": "join", "r": 3, "a": 1, "b": 2}, {"op": "leq", "r": 0, "a": 3, "b": 2}, {"op": "leq", "r": 0, "a": 2, "b": 3}]
+    h = {"id": hid, "vars": _vars4(), "nregs": 3, "steps": steps, "stutter": 0}
+    if params:
+        h["params"] = params
+    return h
+
+
 def is_nontrivial(h):
     """rule used in the evidence: >= 1 relational assume/assign and >= 1 lattice operation"""
     rel = lat = False
